@@ -1,2 +1,385 @@
-// Package c15: correspondence harness for property C15 (stub — registers nothing yet).
+// Package c15: loading a workflow is deterministic and prunes disabled roles.
+//
+// Input  : the workflow template as an S-expression (grammar in lean/Driver/C15.lean):
+//
+//	role  := (A hdr role*) | (T hdr (field*) crit) | (C hdr (field*) crit) | (I range var role)
+//	hdr   := (name enabled defaults vars uvars constraints binds connects)
+//	field := ((t text) | (s se) | (b be))*        range := (R begin end) | (L listfield)
+//
+// The harness renders the template to YAML, unmarshals it with the package's own
+// unmarshallers (workflow.NewAggregatorRole + yaml.Unmarshal + LinkChildrenToParents), sets the
+// root's user variables and runs the real ProcessTemplates — once per setting of the three
+// concurrency switches (viper keys concurrentWorkflowTemplateProcessing,
+// concurrentWorkflowTemplateIteratorProcessing, concurrentIteratorRoleExpansion), 8 runs per case.
+//
+// Obs    : (all X) when the eight canonical dumps are identical, else (diff X0 … X7);
+// X = err | none (root disabled/empty) | the processed tree walked through GetRoles():
+// per role kind, name, enabled, own defaults, own vars, constraints, bind/connect channels
+// (all read through the role's exported MarshalYAML), the consolidated variable stack, and
+// for tasks/calls class|func, return, timeout, trigger, await, critical.
+//
+// `include` roles are left out: they need the repository manager (git checkout).
 package c15
+
+import (
+	"fmt"
+	"sort"
+	"strings"
+
+	"github.com/AliceO2Group/Control/core/repos"
+	"github.com/AliceO2Group/Control/core/task/channel"
+	"github.com/AliceO2Group/Control/core/task/constraint"
+	"github.com/AliceO2Group/Control/core/workflow"
+	"github.com/spf13/viper"
+	"gopkg.in/yaml.v3"
+
+	"verifharness/fw"
+	"verifharness/sx"
+)
+
+var switchKeys = []string{
+	"concurrentWorkflowTemplateProcessing",
+	"concurrentWorkflowTemplateIteratorProcessing",
+	"concurrentIteratorRoleExpansion",
+}
+
+// ---- template → YAML ----------------------------------------------------------------
+
+func seStr(n *sx.Node) string {
+	if n.At(0).Str() == "lit" {
+		return "'" + n.At(1).Str() + "'"
+	}
+	return n.At(1).Str()
+}
+
+func beStr(n *sx.Node) string {
+	switch n.At(0).Str() {
+	case "eq":
+		return "(" + seStr(n.At(1)) + " == " + seStr(n.At(2)) + ")"
+	case "ne":
+		return "(" + seStr(n.At(1)) + " != " + seStr(n.At(2)) + ")"
+	case "and":
+		return "(" + beStr(n.At(1)) + " && " + beStr(n.At(2)) + ")"
+	case "or":
+		return "(" + beStr(n.At(1)) + " || " + beStr(n.At(2)) + ")"
+	case "not":
+		return "!(" + beStr(n.At(1)) + ")"
+	default:
+		if n.At(1).Bool() {
+			return "true"
+		}
+		return "false"
+	}
+}
+
+// fieldText is the templated string as it stands in the workflow file.
+func fieldText(f *sx.Node) string {
+	var b strings.Builder
+	for _, p := range f.List {
+		switch p.At(0).Str() {
+		case "t":
+			b.WriteString(p.At(1).Str())
+		case "s":
+			b.WriteString("{{ " + seStr(p.At(1)) + " }}")
+		case "b":
+			b.WriteString("{{ " + beStr(p.At(1)) + " }}")
+		}
+	}
+	return b.String()
+}
+
+func yq(s string) string {
+	s = strings.ReplaceAll(s, `\`, `\\`)
+	s = strings.ReplaceAll(s, `"`, `\"`)
+	return `"` + s + `"`
+}
+
+func fieldEmpty(f *sx.Node) bool { return fieldText(f) == "" }
+
+func hdrYAML(h *sx.Node, ind string, b *strings.Builder) {
+	fmt.Fprintf(b, "%senabled: %s\n", ind, yq(fieldText(h.At(1))))
+	for i, key := range []string{"defaults", "vars"} {
+		kv := h.At(2 + i)
+		if kv.Len() == 0 {
+			continue
+		}
+		fmt.Fprintf(b, "%s%s:\n", ind, key)
+		for _, e := range kv.List {
+			fmt.Fprintf(b, "%s  %s: %s\n", ind, e.At(0).Str(), yq(fieldText(e.At(1))))
+		}
+	}
+	if c := h.At(5); c.Len() > 0 {
+		fmt.Fprintf(b, "%sconstraints:\n", ind)
+		for _, e := range c.List {
+			fmt.Fprintf(b, "%s  - attribute: %s\n%s    value: %s\n", ind, e.At(0).Str(), ind, yq(fieldText(e.At(1))))
+		}
+	}
+	if c := h.At(6); c.Len() > 0 {
+		fmt.Fprintf(b, "%sbind:\n", ind)
+		for _, e := range c.List {
+			fmt.Fprintf(b, "%s  - name: %s\n%s    type: push\n%s    global: %s\n", ind, e.At(0).Str(), ind, ind, yq(fieldText(e.At(1))))
+		}
+	}
+	if c := h.At(7); c.Len() > 0 {
+		fmt.Fprintf(b, "%sconnect:\n", ind)
+		for _, e := range c.List {
+			fmt.Fprintf(b, "%s  - name: %s\n%s    type: pull\n%s    target: %s\n", ind, e.At(0).Str(), ind, ind, yq(fieldText(e.At(1))))
+		}
+	}
+}
+
+// roleYAML writes one role; `first` is the prefix of its first line ("- " inside a list).
+func roleYAML(n *sx.Node, ind string, inList bool, b *strings.Builder) {
+	pre, cont := ind, ind
+	if inList {
+		pre, cont = ind+"- ", ind+"  "
+	}
+	body := n
+	if n.At(0).Str() == "I" {
+		body = n.At(3)
+	}
+	h := body.At(1)
+	fmt.Fprintf(b, "%sname: %s\n", pre, yq(fieldText(h.At(0))))
+	if n.At(0).Str() == "I" {
+		r := n.At(1)
+		fmt.Fprintf(b, "%sfor:\n", cont)
+		if r.At(0).Str() == "R" {
+			fmt.Fprintf(b, "%s  begin: %s\n%s  end: %s\n", cont, yq(fieldText(r.At(1))), cont, yq(fieldText(r.At(2))))
+		} else {
+			fmt.Fprintf(b, "%s  range: %s\n", cont, yq(fieldText(r.At(1))))
+		}
+		fmt.Fprintf(b, "%s  var: %s\n", cont, n.At(2).Str())
+	}
+	hdrYAML(h, cont, b)
+	switch body.At(0).Str() {
+	case "A":
+		if body.Len() == 2 {
+			fmt.Fprintf(b, "%sroles: []\n", cont)
+			return
+		}
+		fmt.Fprintf(b, "%sroles:\n", cont)
+		for i := 2; i < body.Len(); i++ {
+			roleYAML(body.At(i), cont+"  ", true, b)
+		}
+	case "T":
+		x := body.At(2)
+		fmt.Fprintf(b, "%stask:\n%s  load: %s\n", cont, cont, yq(fieldText(x.At(0))))
+		traitsYAML(x, 1, cont, body.At(3).Bool(), b)
+	case "C":
+		x := body.At(2)
+		fmt.Fprintf(b, "%scall:\n%s  func: %s\n%s  return: %s\n", cont, cont, yq(fieldText(x.At(0))), cont, yq(fieldText(x.At(1))))
+		traitsYAML(x, 2, cont, body.At(3).Bool(), b)
+	}
+}
+
+// traits: x[off]=timeout, x[off+1]=trigger, x[off+2]=await. Generators keep timeout
+// non-empty and await empty when trigger is empty (the unmarshaller's defaulting of
+// omitted traits is not part of this property).
+func traitsYAML(x *sx.Node, off int, cont string, crit bool, b *strings.Builder) {
+	fmt.Fprintf(b, "%s  timeout: %s\n", cont, yq(fieldText(x.At(off))))
+	if !fieldEmpty(x.At(off + 1)) {
+		fmt.Fprintf(b, "%s  trigger: %s\n%s  await: %s\n", cont, yq(fieldText(x.At(off+1))), cont, yq(fieldText(x.At(off+2))))
+	}
+	fmt.Fprintf(b, "%s  critical: %v\n", cont, crit)
+}
+
+func toYAML(root *sx.Node) string {
+	var b strings.Builder
+	roleYAML(root, "", false, &b)
+	return b.String()
+}
+
+// ---- running the real code ---------------------------------------------------------------
+
+func build(root *sx.Node, doc string) (workflow.Role, error) {
+	r := workflow.NewAggregatorRole("", nil)
+	if err := yaml.Unmarshal([]byte(doc), r); err != nil {
+		return nil, fmt.Errorf("yaml: %v\n%s", err, doc)
+	}
+	workflow.LinkChildrenToParents(r)
+	uv := map[string]string{}
+	for _, e := range root.At(1).At(4).List {
+		uv[e.At(0).Str()] = e.At(1).Str()
+	}
+	if len(uv) > 0 {
+		r.SetRuntimeVars(uv)
+	}
+	return r, nil
+}
+
+func canonMap(m map[string]string) *sx.Node {
+	ks := make([]string, 0, len(m))
+	for k := range m {
+		ks = append(ks, k)
+	}
+	sort.Strings(ks)
+	n := sx.L()
+	for _, k := range ks {
+		n.Add(sx.L(sx.A(k), sx.A(m[k])))
+	}
+	return n
+}
+
+type marshaler interface {
+	MarshalYAML() (interface{}, error)
+}
+
+func str(m map[string]interface{}, k string) string {
+	if v, ok := m[k]; ok {
+		if s, ok := v.(string); ok {
+			return s
+		}
+	}
+	return ""
+}
+
+func dumpRole(r workflow.Role) (*sx.Node, error) {
+	ms, ok := r.(marshaler)
+	if !ok {
+		return nil, fmt.Errorf("role %T has no MarshalYAML", r)
+	}
+	raw, err := ms.MarshalYAML()
+	if err != nil {
+		return nil, err
+	}
+	m, ok := raw.(map[string]interface{})
+	if !ok {
+		return nil, fmt.Errorf("MarshalYAML of %T is %T", r, raw)
+	}
+	cons, binds, conns := sx.L(), sx.L(), sx.L()
+	if v, ok := m["constraints"].(constraint.Constraints); ok {
+		for _, c := range v {
+			cons.Add(sx.L(sx.A(c.Attribute), sx.A(c.Value)))
+		}
+	}
+	if v, ok := m["bind"].([]channel.Inbound); ok {
+		for _, c := range v {
+			binds.Add(sx.L(sx.A(c.Name), sx.A(c.Global)))
+		}
+	}
+	if v, ok := m["connect"].([]channel.Outbound); ok {
+		for _, c := range v {
+			conns.Add(sx.L(sx.A(c.Name), sx.A(c.Target)))
+		}
+	}
+	stack, err := r.ConsolidatedVarStack()
+	if err != nil {
+		return nil, err
+	}
+	info := sx.L(sx.A(r.GetName()), sx.A(str(m, "enabled")), canonMap(r.GetDefaults().Raw()), canonMap(r.GetVars().Raw()),
+		cons, binds, conns, canonMap(stack))
+	if r.GetName() != str(m, "name") {
+		return nil, fmt.Errorf("GetName %q != marshalled name %q", r.GetName(), str(m, "name"))
+	}
+	traits := func(t map[string]interface{}, first ...string) *sx.Node {
+		x := sx.L()
+		for _, k := range first {
+			x.Add(sx.A(str(t, k)))
+		}
+		x.Add(sx.A(str(t, "timeout")), sx.A(str(t, "trigger")), sx.A(str(t, "await")))
+		return x
+	}
+	switch {
+	case m["task"] != nil:
+		t := m["task"].(map[string]interface{})
+		crit, _ := t["critical"].(bool)
+		return sx.L(sx.A("T"), info, traits(t, "load"), sx.B(crit)), nil
+	case m["call"] != nil:
+		t := m["call"].(map[string]interface{})
+		crit, _ := t["critical"].(bool)
+		return sx.L(sx.A("C"), info, traits(t, "func", "return"), sx.B(crit)), nil
+	default:
+		n := sx.L(sx.A("A"), info)
+		for _, c := range r.GetRoles() {
+			d, err := dumpRole(c)
+			if err != nil {
+				return nil, err
+			}
+			n.Add(d)
+		}
+		return n, nil
+	}
+}
+
+var theRepo = repos.Repo{HostingSite: "h", Path: "p", RepoName: "r", Hash: "x", Revision: "x", DefaultRevision: "x", Protocol: "local"}
+
+func runOnce(root *sx.Node, doc string, setting int) (string, error) {
+	for i, k := range switchKeys {
+		viper.Set(k, setting&(1<<i) != 0)
+	}
+	r, err := build(root, doc)
+	if err != nil {
+		return "", err
+	}
+	repo := theRepo
+	if err := r.ProcessTemplates(&repo, nil, map[string]string{}); err != nil {
+		return "err", nil
+	}
+	if !r.IsEnabled() {
+		return "none", nil
+	}
+	d, err := dumpRole(r)
+	if err != nil {
+		return "", err
+	}
+	return d.String(), nil
+}
+
+func runImpl(input string) (string, error) {
+	in, err := sx.Parse(input)
+	if err != nil {
+		return "", err
+	}
+	if in.At(0).Str() != "A" {
+		return "", fmt.Errorf("root must be an aggregator")
+	}
+	if !viper.IsSet("config_endpoint") {
+		viper.Set("config_endpoint", "mock://")
+	}
+	doc := toYAML(in)
+	var outs [8]string
+	same := true
+	for s := 0; s < 8; s++ {
+		o, err := runOnce(in, doc, s)
+		if err != nil {
+			return "", err
+		}
+		outs[s] = o
+		if o != outs[0] {
+			same = false
+		}
+	}
+	if same {
+		return "(all " + outs[0] + ")", nil
+	}
+	return "(diff " + strings.Join(outs[:], " ") + ")", nil
+}
+
+func init() {
+	fw.Register(&fw.Property{
+		ID:         "C15",
+		Generate:   generate,
+		RunImpl:    runImpl,
+		Nontrivial: nontrivial,
+		Rule: "random workflow templates rendered to YAML and loaded through the package's unmarshallers: aggregator / iterator " +
+			"(begin-end and JSON-list ranges, literal or from variables) / task / call roles nested to depth <= 4, <= ~25 roles, " +
+			"enabled fields (literal spellings, {{ var }}, ==, !=, &&, ||, !) over defaults/vars/user vars/iteration variables with " +
+			"shadowing across levels, templated names, variables, constraints, bind/connect channels and hook traits, ~12% cases " +
+			"with a deliberate template error (unknown variable, non-integer bound, malformed list); every case is run under ALL 8 " +
+			"settings of the three concurrency switches and the canonical dump of the whole tree is compared with the Lean model " +
+			"and across settings; non-trivial = >= 4 template roles and (an iterator or an enabled field with a {{ }} tag); distinct by input text",
+		Shrink:  shrinkCands,
+		Workers: 1, // viper is process-global
+		TrustedBase: []string{
+			"harness/props/c15 (template -> YAML renderer, tree dump through GetRoles/MarshalYAML/ConsolidatedVarStack)",
+			"gopkg.in/yaml.v3 unmarshalling of the role union", "repos.Repo{h/p/r@x} as the workflow repository (task class resolution)",
+		},
+		Assumptions: []string{
+			"template expressions stay inside the modelled fragment (text, {{ var }}, string literals, ==, !=, &&, ||, !, true/false; ASCII); the rest of the expr engine, This()/Parent()/Up(), config access functions and plugins are unmodelled",
+			"include roles are not generated (they need the repository manager)",
+			"user variables are literal strings set on the root with SetRuntimeVars before ProcessTemplates",
+			"the Go scheduler explores only some interleavings per run; the all-schedules claim rests on the Lean theorem plus the go/ast facts about what the goroutines write",
+		},
+	})
+	fw.RegisterGen(fw.GenFile{Name: "LoadFacts.lean", Make: genFacts})
+}
